@@ -25,6 +25,8 @@ TEXT = {
  'C16': ("monitor rules on every recorded iteration: parent in ArgMin of the logged distance ranks, steer rule (bitwise sample when near, exactly one step on the geodesic when far), nothing added on a blocked motion / something added on a free one (independent three-valued oracle), Bernoulli goal bias, RRT-Connect balance and single connect extension; TLC exhausts the bounded models", "6 C16"),
  'C17': ("RRTStar.tla carries plain RRT's tree in lock step: invariants C17_CostUpper, C17_LastStep (cheapest valid parent, exactly the strictly cheaper valid rewires, frame) and C17_VsRRT; the monitor checks cost equalities, best parent over oracle-free candidates, the rewire set and the frame condition on the implementation", "6 C17"),
  'C18': ("PRM.tla invariants C18_Graph / C18_Complete / C18_QueryComplete with any hop-minimal chain allowed; the monitor rebuilds the roadmap per sample, checks justification and completeness of every link, symmetry, snapshot equality, query completeness and hop-minimality by BFS inside TLC", "6 C18"),
+ 'C19': ("the binding layer as a translation: generated scenarios (6 problem-definition variants x RRT / RRT-Connect / RRT* x worlds x seeds) run through the Python API and through the Rust core with bit-identical callbacks; the hashed callback streams (every is_valid / is_satisfied / sample_goal with state bits and answer) and the returned paths must be equal call by call (TLC stream monitor, tag C19); Python PRM paths are checked for soundness against the Python callbacks; 255 wrapper values (constructor outcomes over the bound lattice incl. NaN/inf, extents, distances, canonicalised angles) bitwise equal to the core, ValueError exactly where the core errs", "6 C19"),
+ 'C20': ("fault enumeration through the Python API: fault kind (raise / None / int / str) x schedule (k-th call, every state in a region) x callback (validity, goal satisfaction) x variants x planners; the run with the failing callback must equal, call for call and in its result, the run whose callback answers False at those same calls (TLC stream monitor, tag C20), and no path may pass through (validity) or end at (goal) a state on which the callback failed", "6 C20"),
 }
 CAT = {k: v['level'] for k, v in PROPS.items()}
 
@@ -49,6 +51,7 @@ for pid in ids:
     })
 NA = {
 }
+NOTE_C20 = 'oxmpl-js (WASM) implements the same fail-closed policy but cannot be built or run offline in this sandbox (no wasm32 target, no wasm-bindgen); that half of the anchor is not covered'
 na = [{'property_id': i, 'reason': NA.get(i, 'engine not built yet in this session (work in progress; DESIGN.md section 9)')} for i in ids if i not in PROPS]
 m = {
  'version': 1,
@@ -60,6 +63,7 @@ m = {
    {'name': 'lat:<planner>', 'path': 'spec/{RRT,RRTStar,RRTConnect,PRM}.tla + MC_*.tla, harness/src/bin/latreplay.rs, spec/TraceMonitor.tla', 'serves_properties': [p for p in PROPS if any(e.startswith('lat:') for e in PROPS[p]['engines'])], 'kind_free_text': 'TLC model checking of the planner spec; every emitted history replayed on the real planner over a lattice space; trace validated by the TLC monitor'},
    {'name': 'real', 'path': 'harness/src/bin/realrun.rs, harness/src/annot.rs, spec/TraceMonitor.tla', 'serves_properties': [p for p in PROPS if 'real' in PROPS[p]['engines']], 'kind_free_text': 'real planners on the six real spaces, generated worlds, every iteration recorded and validated by the TLC monitor'},
    {'name': 'spaces', 'path': 'spec/Spaces.tla, MC_Spaces.tla, TraceSpaces.tla, harness/src/bin/spaces.rs', 'serves_properties': ['C09','C10','C11','C12','C13','C14'], 'kind_free_text': 'exact lattice models; every lattice case evaluated on the real space functions and validated by TLC'},
+   {'name': 'py', 'path': 'py/pydrive.py, harness/src/bin/pymirror.rs, spec/TraceMonitor.tla (EvStream, EvPy)', 'serves_properties': ['C19', 'C20'], 'kind_free_text': 'oxmpl-py built from /repo, scenarios run through Python and the core, streams compared by the TLC monitor'},
    {'name': 'api:<planner>', 'path': 'spec/PlannerAPI.tla, MC_PlannerAPI.tla', 'serves_properties': ['C07', 'C08'], 'kind_free_text': 'call sequences x fault schedules enumerated by TLC, executed on two same-seed instances'},
  ],
  'checks': checks,
